@@ -601,6 +601,22 @@ class CallerValuesUntouched(Contract):
                 return f"assigning values to {case['cls']} data changed the caller's array from {snapshot.tolist()} to {mine.tolist()} ({case})"
             if other is not None and not np.array_equal(np.asarray(other.values), snapshot, equal_nan=(snapshot.dtype.kind == "f")):
                 return f"assigning the values of one data set to {case['cls']} data changed the source data set to {np.asarray(other.values).tolist()} ({case})"
+            # ... and the data set holds an array of its own: what the caller (or the other data set) does to its array afterwards,
+            # and what is done in place to the array this data set hands out, stays where it is done
+            got = [c for c in p.children if getattr(c, "name", None) == "d"]
+            if got and got[0].values is not None and mine.dtype.kind in "fiu" and mine.ndim == 1 and len(mine) == 4:
+                d = got[0]
+                held = np.array(d.values, copy=True)
+                mine[0] = 77
+                if not np.array_equal(np.asarray(d.values), held, equal_nan=(held.dtype.kind == "f")):
+                    return f"{case['cls']} data given an array: editing that array in place afterwards changed the data set to {np.asarray(d.values).tolist()} ({case})"
+                mine[0] = snapshot[0]
+                handed = d.values
+                handed[3] = 55
+                if other is not None and not np.array_equal(np.asarray(other.values), snapshot, equal_nan=(snapshot.dtype.kind == "f")):
+                    return f"editing in place the array {case['cls']} data hands out changed the data set its values came from to {np.asarray(other.values).tolist()} ({case})"
+                if not np.array_equal(mine, snapshot, equal_nan=(mine.dtype.kind == "f")):
+                    return f"editing in place the array {case['cls']} data hands out changed the caller's array to {mine.tolist()} ({case})"
         return None
 
 
@@ -669,3 +685,65 @@ class RefusedCreationsLeaveNothing(Contract):
 
 
 CONTRACTS = CONTRACTS + [RefusedCreationsLeaveNothing]
+
+
+class ConcatenatedNoDataCode(Contract):
+    """Float logs of holes in a drillhole group: a gap (NaN) is stored as the format's float no-data
+    code -- never as a raw NaN -- whatever the number of samples of the log, and reads back as NaN."""
+    target = "geoh5py/io/h5_writer.py::H5Writer.update_concatenated_field"
+    variant = "no-data-code"
+    symbolic = False
+    has_native = True
+    props = ("C08",)
+    bounded_scope = "one hole, depth logs of 1, 2, 3 and 5 samples with {no gap, one gap, only gaps}; both format versions; the stored arrays read with h5py (no NaN, gaps equal to the float no-data code) and the values read back through the library (exhaustive)"
+
+    def native_cases(self, tier, rng):
+        for n in (1, 2, 3, 5):
+            for gaps in ("none", "one", "all"):
+                for version in (2.0, 2.1):
+                    yield {"n": n, "gaps": gaps, "version": version}
+
+    def native_check(self, case):
+        import h5py
+
+        from geoh5py.groups import DrillholeGroup
+        from geoh5py.objects import Drillhole
+        from geoh5py.workspace import Workspace
+
+        d = tempfile.mkdtemp()
+        try:
+            path = os.path.join(d, "n.geoh5")
+            vals = np.arange(case["n"], dtype=float) + 1.5
+            if case["gaps"] == "one":
+                vals[case["n"] // 2] = np.nan
+            elif case["gaps"] == "all":
+                vals[:] = np.nan
+            with Workspace.create(path, version=case["version"]) as ws:
+                dg = DrillholeGroup.create(ws, name="dg")
+                h = Drillhole.create(ws, parent=dg, name="h", collar=[0.0, 0.0, 0.0])
+                h.add_data({"log": {"depth": np.arange(case["n"], dtype=float) + 1.0, "values": vals.copy()}})
+            with h5py.File(path, "r") as f:
+                proj = f[list(f)[0]]
+                for key in proj["Groups"]:
+                    node = proj["Groups"][key]
+                    if "Concatenated Data" not in node or "Data" not in node["Concatenated Data"]:
+                        continue
+                    data = node["Concatenated Data"]["Data"]
+                    if "log" not in data:
+                        return f"the log is not among the stored arrays {sorted(data)} ({case})"
+                    raw = np.asarray(data["log"][:], dtype=float)
+                    if np.isnan(raw).any():
+                        return f"a float log of {case['n']} sample(s) with gaps '{case['gaps']}' is stored as {raw.tolist()}: a raw NaN instead of the no-data code ({case})"
+                    want_gap = np.isnan(vals)
+                    if len(raw) != len(vals) or not np.allclose(raw[~want_gap], vals[~want_gap]) or not np.allclose(raw[want_gap], 1.17549435e-38, rtol=1e-6, atol=0.0):
+                        return f"a float log {vals.tolist()} is stored as {raw.tolist()} ({case})"
+            with Workspace(path, mode="r") as ws:
+                back = np.asarray(ws.get_entity("h")[0].get_data("log")[0].values, dtype=float)
+                if back.shape != vals.shape or not np.allclose(back, vals, equal_nan=True):
+                    return f"a float log {vals.tolist()} reads back as {back.tolist()} ({case})"
+            return None
+        finally:
+            shutil.rmtree(d, ignore_errors=True)
+
+
+CONTRACTS = CONTRACTS + [ConcatenatedNoDataCode]
